@@ -168,6 +168,19 @@ def read_job(job):
         if out is not None:
             res['outcome'] = 'ok'
             res['line'] = summary_line(out)
+            if job.get('reread'):
+                # the result dictionary belongs to the caller: emptying it must not change what the same text reads to next
+                # time (the objects are still held by `keep`, so the second read returns the same singletons)
+                keep = [list(v.values()) if isinstance(v, dict) else list(v) for v in out.values()]
+                for v in out.values():
+                    v.clear()
+                try:
+                    out = objectio.read_pil(job['text'], ignore=job.get('ignore'))
+                    res['reread_line'] = summary_line(out)
+                except Exception as e:
+                    res['reread_line'] = 'raised ' + type(e).__name__
+                    e = None
+                del keep
             if job.get('mode') == 'full':
                 res['summary'] = summarise(out)
                 res['identity'] = identity_checks(out, bc)
